@@ -1,0 +1,119 @@
+//! Verification hooks.
+//!
+//! This module only exists when the crate is compiled with
+//! `--cfg similar_verif`.  It is used by an external conformance harness
+//! and is not part of the public interface.  With the cfg flag off none of
+//! this code is compiled and none of the call sites exist.
+use std::cell::{Cell, RefCell};
+
+use crate::DiffOp;
+
+type Clock = Box<dyn FnMut() -> bool>;
+type CleanupTracer = Box<dyn FnMut(&'static str, usize, &[DiffOp])>;
+
+thread_local! {
+    static CLOCK: RefCell<Option<Clock>> = RefCell::new(None);
+    static SWAP_REPAIR: Cell<bool> = Cell::new(false);
+    static SWAPS: Cell<usize> = Cell::new(0);
+    static CLEANUP_TRACER: RefCell<Option<CleanupTracer>> = RefCell::new(None);
+}
+
+/// Installs (or removes) a virtual clock for the current thread.
+///
+/// While a clock is installed every deadline check that is made with a
+/// deadline present asks the clock instead of the system time.  The clock
+/// returns `true` when the deadline counts as exceeded.
+pub fn install_clock(clock: Option<Clock>) {
+    CLOCK.with(|c| *c.borrow_mut() = clock);
+}
+
+/// Consulted by `deadline_exceeded`.
+///
+/// Returns `None` when the real clock should be used.
+pub fn probe(has_deadline: bool) -> Option<bool> {
+    if !has_deadline {
+        return None;
+    }
+    CLOCK.with(|c| c.borrow_mut().as_mut().map(|f| f()))
+}
+
+/// Turns the repair of carried indices at the compaction swap site on or off
+/// for the current thread (off by default).
+pub fn set_swap_repair(yes: bool) {
+    SWAP_REPAIR.with(|c| c.set(yes));
+}
+
+/// Returns the number of swaps performed by the compaction on this thread
+/// since the last call and resets the counter.
+pub fn take_swap_count() -> usize {
+    SWAPS.with(|c| c.replace(0))
+}
+
+/// Called right after the compaction swapped `ops[at]` and `ops[at + 1]`.
+///
+/// Counts the swap and, only when the repair switch is on, recomputes the
+/// carried index of the two swapped ops from the primary coordinates of the
+/// other one.
+pub fn repair_swapped(ops: &mut [DiffOp], at: usize) {
+    SWAPS.with(|c| c.set(c.get() + 1));
+    if !SWAP_REPAIR.with(|c| c.get()) {
+        return;
+    }
+    match (ops[at], ops[at + 1]) {
+        (
+            DiffOp::Insert {
+                new_index, new_len, ..
+            },
+            DiffOp::Delete {
+                old_index, old_len, ..
+            },
+        ) => {
+            ops[at] = DiffOp::Insert {
+                old_index,
+                new_index,
+                new_len,
+            };
+            ops[at + 1] = DiffOp::Delete {
+                old_index,
+                old_len,
+                new_index: new_index + new_len,
+            };
+        }
+        (
+            DiffOp::Delete {
+                old_index, old_len, ..
+            },
+            DiffOp::Insert {
+                new_index, new_len, ..
+            },
+        ) => {
+            ops[at] = DiffOp::Delete {
+                old_index,
+                old_len,
+                new_index,
+            };
+            ops[at + 1] = DiffOp::Insert {
+                old_index: old_index + old_len,
+                new_index,
+                new_len,
+            };
+        }
+        _ => {}
+    }
+}
+
+/// Installs (or removes) a tracer that observes every step of the
+/// compaction (`cleanup_diff_ops`) on the current thread.
+pub fn install_cleanup_tracer(tracer: Option<CleanupTracer>) {
+    CLEANUP_TRACER.with(|c| *c.borrow_mut() = tracer);
+}
+
+/// Reports one step of the compaction: the arm that was taken, the pointer
+/// after the step and the op list after the step.
+pub fn cleanup_step(arm: &'static str, pointer: usize, ops: &[DiffOp]) {
+    CLEANUP_TRACER.with(|c| {
+        if let Some(f) = c.borrow_mut().as_mut() {
+            f(arm, pointer, ops)
+        }
+    });
+}
